@@ -172,6 +172,9 @@ pub struct Case {
     pub fault: Option<Fault>,
     pub first_step: Option<f64>,
     pub max_step: Option<f64>,
+    /// lower bound on the step size as a fraction of the span (Radau, BDF)
+    #[serde(default)]
+    pub min_step: Option<f64>,
 }
 
 pub fn check(c: &Case) -> Outcome {
@@ -215,7 +218,8 @@ pub fn check(c: &Case) -> Outcome {
         t_eval: c.t_eval.as_ref().map(|f| fracs_to_times(sp, f)),
         dense: c.dense,
     };
-    let res = solve(&instr, sp.x0, sp.xend, &y0, &opts);
+    let extra = Extra { min_step: c.min_step.map(|f| f * len), ..Default::default() };
+    let res = solve_ex(&instr, sp.x0, sp.xend, &y0, &opts, &extra);
     let log = instr.take_log();
     let name = c.method.name();
     let sol = match res {
@@ -377,14 +381,14 @@ pub fn strategy() -> BoxedStrategy<Case> {
         proptest::option::weighted(0.3, t_eval_fracs(10)),
         any::<bool>(),
         proptest::bool::weighted(0.3),
-        (proptest::option::weighted(0.25, log10(-3.0, 0.0)), proptest::option::weighted(0.2, log10(-2.0, 0.5))),
+        (proptest::option::weighted(0.25, log10(-3.0, 0.0)), proptest::option::weighted(0.2, log10(-2.0, 0.5)), proptest::option::weighted(0.15, log10(-9.0, -2.0))),
         0u8..6,
     )
-        .prop_map(|((patho, theta, fault), span, method, (re, ar), max_steps, t_eval, dense, with_event, (first_step, max_step), z)| {
+        .prop_map(|((patho, theta, fault), span, method, (re, ar), max_steps, t_eval, dense, with_event, (first_step, max_step, min_step), z)| {
             // start exactly at 0 now and then (the underflow guards compare against |x|)
             let span = if z == 0 { mk_span(0.0, span.len(), span.dir() < 0.0) } else { span };
             let rtol = 10f64.powf(-re);
-            Case { patho, span, theta, method, rtol, atol: rtol * 10f64.powf(ar), max_steps, t_eval, dense, with_event, fault, first_step, max_step }
+            Case { patho, span, theta, method, rtol, atol: rtol * 10f64.powf(ar), max_steps, t_eval, dense, with_event, fault, first_step, max_step, min_step }
         })
         .boxed()
 }
@@ -397,7 +401,7 @@ pub fn run(ctx: &Ctx, known: &[Known]) -> Report {
     let stats = run_generated(ctx, "C04", "gen", &strategy, &check, cases, known);
     Report {
         id: "C04".into(),
-        rule: "cases = finite-time blow-up (y'=y^2, y^3, 1+y^2, e^y with the span covering 0.5..3 times the blow-up time), stiff linear decay (rates to 1e4, lambda*T <= 3e4) with any method, time-discontinuous (square-wave forcing, coefficient jump) and state-discontinuous right-hand sides, and benign closed-form problems whose right-hand side starts returning NaN / +inf / -inf (all components or one) from a generated time, at x0, at xend, or when |y| exceeds a threshold; six methods, rtol 1e-3..1e-10, max_steps none / 1..10^4, with/without t_eval, dense output, an event function, first_step, max_step; x0 = 0 exactly in 1/6 of the cases; plus 'resonant' cases for Radau and BDF: y' = +-2^k y (analytic Jacobian) with the first step chosen so that the iteration matrix is exactly singular at the first attempt, compared with the same run whose first step is larger by 1e-6 (Success required, at most 3x+50 steps of the twin, max_steps = 5000). Oracle: the call returns within 2,000,000 right-hand-side evaluations (deterministic work bound, no clock) without panicking; Ok/Err; structurally valid prefix; no Success with non-finite states for error-controlled methods; no Success when the right-hand side is non-finite from an interior time to xend. Non-trivial = a non-finite right-hand-side value was returned, or status != Success, or a step was rejected. Distinct = distinct canonical JSON.".into(),
+        rule: "cases = finite-time blow-up (y'=y^2, y^3, 1+y^2, e^y with the span covering 0.5..3 times the blow-up time), stiff linear decay (rates to 1e4, lambda*T <= 3e4) with any method, time-discontinuous (square-wave forcing, coefficient jump) and state-discontinuous right-hand sides, and benign closed-form problems whose right-hand side starts returning NaN / +inf / -inf (all components or one) from a generated time, at x0, at xend, or when |y| exceeds a threshold; six methods, rtol 1e-3..1e-10, max_steps none / 1..10^4, with/without t_eval, dense output, an event function, first_step, max_step, min_step; x0 = 0 exactly in 1/6 of the cases; plus 'resonant' cases for Radau and BDF: y' = +-2^k y (analytic Jacobian) with the first step chosen so that the iteration matrix is exactly singular at the first attempt, compared with the same run whose first step is larger by 1e-6 (Success required, at most 3x+50 steps of the twin, max_steps = 5000). Oracle: the call returns within 2,000,000 right-hand-side evaluations (deterministic work bound, no clock) without panicking; Ok/Err; structurally valid prefix; no Success with non-finite states for error-controlled methods; no Success when the right-hand side is non-finite from an interior time to xend. Non-trivial = a non-finite right-hand-side value was returned, or status != Success, or a step was rejected. Distinct = distinct canonical JSON.".into(),
         assumptions: vec![
             "work bound: legitimate runs of these families need < 2e5 evaluations (observed), the bound is 2e6".into(),
             "RK4 (no error control) is only required to terminate without panicking".into(),
